@@ -176,6 +176,7 @@ def to_schema_facts(st, s, b_props, b_req, has_req, b_meta):
     return [
         s.member[P] == (b_props.n != 0),
         z3.ForAll([k], z3.And(props_names(pv)[k] == b_props.member[k], z3.Implies(b_props.member[k], props_nodes(pv)[k] == b_props.vals[k]))),
+        z3.Implies(s.member[P], z3.And(pv != val_none, props_count(pv) == b_props.n)),
         s.member[R] == z3.And(has_req, b_req.n != 0),
         z3.ForAll([k], names_of(rv)[k] == b_req.member[k]),
         z3.Implies(s.member[R], names_of(rv)[required_witness(rv)]),  # (the keyword is only emitted for a non-empty set: it lists at least one name)
@@ -730,3 +731,143 @@ class _JsonRepairHooks2:
 
 
 _install(_JsonRepairHooks2)
+
+
+# ============================================================================ JSONGrammar._get_names_to_types (conversion to Python types)
+node_has_type = z3.Function("json_node_has_type", ValS, z3.BoolSort())  # the property schema has a "type" keyword
+node_type = z3.Function("json_node_type", ValS, ValS)  # ... its value
+type_is_hashable = z3.Function("json_type_keyword_is_a_string", ValS, z3.BoolSort())  # "type": "integer" (a str) vs ["integer", "string"] (a list, unhashable)
+j2p_known = z3.Function("json_to_python_known", ValS, z3.BoolSort())  # key of JSONGrammar.__JSON_TO_PYTHON_TYPES
+j2p = z3.Function("json_to_python_type", ValS, ValS)  # ... its value
+props_count = z3.Function("json_props_count", ValS, z3.IntSort())  # number of properties listed by a "properties" keyword value
+J2P = "json.JSON_TO_PYTHON_TYPES"
+
+
+def _in_gntt(ex):
+    return any(fr.module.name == JG_MODULE and fr.finfo.qualname.endswith("JSONGrammar._get_names_to_types") for fr in ex.st.frames)
+
+
+class _JsonConversionHooks:
+    def class_constant(self, ex, ci, name):
+        if name == "_JSONGrammar__JSON_TO_PYTHON_TYPES" and ci.qualname == JG:
+            return BuiltinV(J2P)
+        return NotImplemented
+
+    def value_attr(self, ex, obj, attr, lineno):
+        if isinstance(obj, SV) and obj.ty == TVal and attr == "items" and _in_gntt(ex):
+            return BoundMethod(obj, None, "jsonprops.items")
+        return NotImplemented
+
+    def call_method(self, ex, recv, name, args, kwargs, lineno):
+        if name != "jsonprops.items":
+            return NotImplemented
+        # the value of the "properties" keyword read as the dictionary it is: name -> property schema
+        st = ex.st
+        v = recv.term
+        o = DictObj(TStr, TVal, props_names(v), props_nodes(v), props_count(v))
+        o.ty = PROPS_T
+        for f in o.wf_facts(st):
+            st.assume(f)
+        return ex.models.dict_method(ex, st.alloc(o), o, "items", [], {}, lineno)
+
+    def getitem(self, ex, cont, key, lineno):
+        from .engine import PyRaise
+
+        st = ex.st
+        if isinstance(cont, SV) and cont.ty == TVal and key == "type" and _in_gntt(ex):
+            if not st.decide(node_has_type(cont.term)):
+                raise PyRaise("KeyError", lineno)
+            return SV(node_type(cont.term), TVal)
+        if isinstance(cont, BuiltinV) and cont.name == J2P and isinstance(key, SV) and key.ty == TVal:
+            if not st.decide(type_is_hashable(key.term)):
+                raise PyRaise("TypeError", lineno)
+            if not st.decide(j2p_known(key.term)):
+                raise PyRaise("KeyError", lineno)
+            return SV(j2p(key.term), TVal)
+        return NotImplemented
+
+    def contains(self, ex, cont, item, lineno):
+        from .engine import PyRaise
+
+        if isinstance(cont, BuiltinV) and cont.name == J2P and isinstance(item, SV) and item.ty == TVal:
+            if not ex.st.decide(type_is_hashable(item.term)):
+                raise PyRaise("TypeError", lineno)  # hashing a list
+            return SV(j2p_known(item.term), TBool)
+        return NotImplemented
+
+
+_install(_JsonConversionHooks)
+
+
+# ============================================================================ files (update_from_file / to_file) and _copy
+json_file_text = z3.Function("json_file_text", TStr.sort(), TStr.sort())  # content of the file at a path (at the time of the call)
+json_loads = z3.Function("json_loads", TStr.sort(), SCHEMA_T.sort())  # json.loads(text) when the text is a JSON object
+json_file_exists = z3.Function("json_file_exists", TStr.sort(), z3.BoolSort())
+path_with_suffix = z3.Function("json_path_with_suffix", TStr.sort(), TStr.sort(), TStr.sort())
+declare_ghost("json_written", z3.ArraySort(TStr.sort(), TStr.sort()))  # path -> text written by to_file
+
+
+class PathV:
+    """pathlib.Path(p) inside json_grammar.py: only its string matters."""
+
+    def __init__(self, term):
+        self.term = term
+
+
+class _JsonFileHooks:
+    def call_builtin(self, ex, name, args, kwargs, lineno, node=None):
+        st = ex.st
+        if ex.frame.module.name != JG_MODULE:
+            return NotImplemented
+        if name == "pathlib.Path" and len(args) == 1:
+            a = args[0]
+            if isinstance(a, PathV):
+                return a
+            if isinstance(a, str) or (isinstance(a, SV) and a.ty == TStr):
+                return PathV(TStr.embed(st, a))
+        if name == "json.loads" and len(args) == 1 and isinstance(args[0], SV) and args[0].ty == TStr:
+            ex.assumed.add("model:json.loads(text) is a function of the text (a JSON object -> dict of keywords)")
+            return SCHEMA_T.project(st, json_loads(args[0].term))
+        return NotImplemented
+
+    def value_attr(self, ex, obj, attr, lineno):
+        if isinstance(obj, PathV) and attr in ("exists", "read_text", "write_text", "with_suffix"):
+            return BoundMethod(obj, None, f"jsonpath.{attr}")
+        return NotImplemented
+
+    def truth(self, ex, v):
+        if isinstance(v, PathV):
+            return True
+        return NotImplemented
+
+    def call_method(self, ex, recv, name, args, kwargs, lineno):
+        if not (name.startswith("jsonpath.") and isinstance(recv, PathV)):
+            return NotImplemented
+        st = ex.st
+        what = name[9:]
+        if what == "exists":
+            return SV(json_file_exists(recv.term), TBool)
+        if what == "read_text":
+            return SV(json_file_text(recv.term), TStr)
+        if what == "with_suffix":
+            return PathV(path_with_suffix(recv.term, TStr.embed(st, args[0])))
+        if what == "write_text":
+            h = st.ghost_get("json_written", z3.ArraySort(TStr.sort(), TStr.sort()))
+            st.ghost_set("json_written", z3.Store(h, recv.term, TStr.embed(st, args[0])))
+            return None
+        return NotImplemented
+
+    def raise_value(self, ex, clsv, lineno):
+        from .engine import PyRaise
+
+        if isinstance(clsv, BuiltinV) and clsv.name == "FileNotFoundError":
+            raise PyRaise("FileNotFoundError", lineno)
+        return NotImplemented
+
+    def shallow_copy(self, ex, v, lineno):
+        if isinstance(v, SV) and v.ty == VALIDATOR_T and ex.frame.module.name == JG_MODULE:
+            return v  # copy.copy of None / of a function object is the object itself
+        return NotImplemented
+
+
+_install(_JsonFileHooks)
